@@ -7,7 +7,7 @@ pid=$1; patch=$(readlink -f "$2"); tier=${3:-quick}
 tag=$$
 wt=/tmp/mt-wt-$tag; vc=/tmp/mt-v-$tag
 git -C /repo worktree add --detach "$wt" HEAD >/dev/null 2>&1 || exit 3
-rsync -a --exclude .git --exclude replays /verif/ "$vc/"
+rsync -a --exclude .git --exclude replays --exclude "coq/Corr" /verif/ "$vc/" 2>/dev/null
 if ! git -C "$wt" apply "$patch"; then echo "PATCH DOES NOT APPLY"; rc=4; else
   ( cd "$vc" && XSDATA_REPO="$wt" ./check "$pid" --tier "$tier" 2>&1 | tail -${TAIL:-12} ); rc=${PIPESTATUS[0]}
 fi
